@@ -1086,3 +1086,66 @@ def _with_cimpl(pid, fn):
 CHECKS["C02"] = _with_cimpl("C02", _o2)
 CHECKS["C06"] = _with_cimpl("C06", _o6)
 CHECKS["C05"] = _with_cimpl("C05", _o5b)
+
+
+# ------------------------------------------------------------------ atomic-level conformance of real runs against CLHT (Trace_CLHT)
+
+import clhtconf  # noqa: E402
+
+CONF_FAMILIES = ("F1-", "F1b", "F2-", "F3-", "F4-", "F4b", "F5-", "F6-", "F8-", "F9-", "F10", "F11")
+
+
+def clht_conformance(ctx, kinds):
+    """Code -> spec at the granularity of synchronisation steps: the scheduler's step log of real runs is mapped to CLHT
+    labels and the specification (real geometry, projected initial table) is driven along the recorded schedule; it must
+    take every step, compute the same results and end in the same table. A mismatch is SPEC-DRIFT, never a verdict."""
+    import concurrent.futures
+    sc = ctx.scratch()
+    if not sc.access:
+        ctx.cov["impl_conformance"] = "skipped_no_access"
+        return
+    per = 1 if not ctx.thorough else 8
+    sitemap = json.load(open(os.path.join(sc.dir, "sitemap.json")))
+    jobs = []
+    d = lib.mktemp("verif-conf-")
+    for (variant, kind, kt, vt) in kinds:
+        fam = scen.map_families(kind, kt, vt, {"kind": "pct", "depth": 3, "runs": 12 if not ctx.thorough else 200, "seed": lib.seed()})
+        scs = [dict(s, steplog=True) for s in fam if s["name"].startswith(CONF_FAMILIES)]
+        pin, out = os.path.join(d, "sc_%s_%s.json" % (kind, kt)), os.path.join(d, "h_%s_%s.ndjson" % (kind, kt))
+        json.dump(scs, open(pin, "w"))
+        sc.run("conc", inp=pin, out=out, timeout=3600)
+        byname = {s["name"]: s for s in scs}
+        seen = {}
+        for lines in lib.split_traces(out):
+            name = json.loads(lines[0])["note"]
+            if seen.get(name, 0) >= per:
+                continue
+            seen[name] = seen.get(name, 0) + 1
+            jobs.append((variant, name, byname[name], lines))
+    results = []
+    with concurrent.futures.ThreadPoolExecutor(max_workers=8) as ex:
+        for r in ex.map(lambda j: (j[0], j[1], clhtconf.conform(j[3], j[2], j[0], sitemap)), jobs):
+            results.append(r)
+    ok = [r for r in results if r[2][0] is True]
+    bad = [r for r in results if r[2][0] is False]
+    ctx.cov["clht_conformance"] = {"runs_checked": len(ok) + len(bad), "conforming": len(ok), "steps_matched": sum(r[2][1]["events"] for r in ok), "not_checkable": len(results) - len(ok) - len(bad)}
+    ctx.cov["states"] += sum(r[2][1].get("states") or 0 for r in ok)
+    ctx.cov["impl_conformance"] = "ok" if not bad else "drift(%d of %d runs)" % (len(bad), len(ok) + len(bad))
+    for (variant, name, (_, detail)) in bad[:3]:
+        ctx.drift.append("CLHT(%s) cannot follow the recorded synchronisation steps of %s: %s" % (variant, name, json.dumps(detail)[:400]))
+    if ok:
+        ctx.sample({"label": "CLHT conformance", "run": ok[0][1], "detail": ok[0][2][1]})
+
+
+_c3, _c4 = CHECKS["C03"], CHECKS["C04"]
+
+
+def _with_conf(fn, kinds):
+    def run(ctx):
+        fn(ctx)
+        clht_conformance(ctx, kinds)
+    return run
+
+
+CHECKS["C03"] = _with_conf(_c3, [("Map", "Map", "", "")])
+CHECKS["C04"] = _with_conf(_c4, [("MapOf", "MapOf", "int", "int"), ("MapOf", "MapOf", "string", "any")])
